@@ -80,6 +80,9 @@ func TestCache(t *testing.T) {
 		blockchain.ResetInstance()
 		cs := blockchain.GetInstance()
 		out.Emit(map[string]any{"ev": "Reset"})
+		// a caller that re-encodes a value of unchanged length into the buffer it handed over before:
+		// the entries of one history share one backing array per key while the length stays the same
+		bufs := map[types.StateKey][]byte{}
 		for _, raw := range c["script"].([]any) {
 			ev := raw.(map[string]any)
 			switch vfd.S(ev["ev"]) {
@@ -92,6 +95,14 @@ func TestCache(t *testing.T) {
 				out.Emit(map[string]any{"ev": "Clear"})
 			case "Compute":
 				entries := kvs(ev["entries"])
+				for i := range entries {
+					if b, ok := bufs[entries[i].Key]; ok && len(b) == len(entries[i].Value) {
+						copy(b, entries[i].Value)
+						entries[i].Value = b
+					} else {
+						bufs[entries[i].Key] = entries[i].Value
+					}
+				}
 				rec := map[string]any{"ev": "Compute", "entries": ev["entries"]}
 				p, msg := vfd.Guard(func() {
 					cached := cs.ComputeStateRootWithCache(permute(r, entries))
